@@ -4,6 +4,7 @@ package main
 
 import (
 	"fmt"
+	"net"
 	"net/url"
 	"os"
 	"path/filepath"
@@ -15,6 +16,7 @@ import (
 	"bfeverif/harness/internal/vh"
 	"github.com/bfenetworks/bfe/bfe_basic"
 	"github.com/bfenetworks/bfe/bfe_http"
+	"github.com/bfenetworks/bfe/bfe_module"
 	"github.com/bfenetworks/bfe/bfe_route"
 	"github.com/bfenetworks/bfe/bfe_server"
 )
@@ -235,10 +237,204 @@ func stress(n int) string {
 	return "ok cur=" + snapVersion(newReq(srv))
 }
 
+
+// ---- serve: ONE request through the real ReverseProxy.ServeHTTP with reloads landing in the middle of it ------
+//
+// op = `serve <c0>|<bl>|<fp>|<al>`; c = <version><n|s><g|b>: version number, cluster named cl<v> (n) or "shared" (s),
+// good or broken files.  c0 is loaded first, then the request takes its snapshot; the reloads of <bl> run inside a
+// HandleBeforeLocation callback (before findProduct), those of <fp> inside HandleFoundProduct (between findProduct
+// and findCluster + cluster lookup), those of <al> inside HandleAfterLocation, which also ends the request.
+// Every version gives its cluster TimeoutReadClient = (v+1)*100 s, so the read deadline ServeHTTP sets on the
+// connection right after the cluster lookup tells which version's cluster OBJECT was resolved.
+
+type srvCfg struct {
+	v      int
+	shared bool
+	good   bool
+}
+
+func parseCfg(s string) (srvCfg, bool) {
+	if len(s) < 3 {
+		return srvCfg{}, false
+	}
+	v, err := strconv.Atoi(s[:len(s)-2])
+	if err != nil || v < 1 || v > 90 {
+		return srvCfg{}, false
+	}
+	n, g := s[len(s)-2], s[len(s)-1]
+	if (n != 'n' && n != 's') || (g != 'g' && g != 'b') {
+		return srvCfg{}, false
+	}
+	return srvCfg{v, n == 's', g == 'g'}, true
+}
+
+func parseCfgs(s string) ([]srvCfg, bool) {
+	if s == "-" {
+		return nil, true
+	}
+	var out []srvCfg
+	for _, x := range strings.Split(s, ",") {
+		c, ok := parseCfg(x)
+		if !ok {
+			return nil, false
+		}
+		out = append(out, c)
+	}
+	return out, true
+}
+
+func (c srvCfg) clusterName() string {
+	if c.shared {
+		return "shared"
+	}
+	return fmt.Sprintf("cl%d", c.v)
+}
+
+func (c srvCfg) write() (h, vp, r, cc string) {
+	d := filepath.Join(dir(), "serve")
+	os.MkdirAll(d, 0755)
+	w := func(name, content string) string {
+		p := filepath.Join(d, name)
+		if err := os.WriteFile(p, []byte(content), 0644); err != nil {
+			panic(err)
+		}
+		return p
+	}
+	prod, cl := fmt.Sprintf("prod%d", c.v), c.clusterName()
+	defined := cl
+	if !c.good {
+		defined = "other" // dangling cluster: LoadServerDataConf fails in check()
+	}
+	return w("host_rule.data", fmt.Sprintf(`{"Version":"%d","Hosts":{"t":["a.com"]},"HostTags":{"%s":["t"]}}`, c.v, prod)),
+		w("vip_rule.data", fmt.Sprintf(`{"Version":"%d","Vips":{}}`, c.v)),
+		w("route_rule.data", fmt.Sprintf(`{"Version":"%d","ProductRule":{"%s":[{"Cond":"default_t()","ClusterName":"%s"}]}}`, c.v, prod, cl)),
+		w("cluster_conf.data", fmt.Sprintf(`{"Version":"%d","Config":{"%s":{"ClusterBasic":{"TimeoutReadClient":%d}}}}`, c.v, defined, (c.v+1)*100000))
+}
+
+type fakeConn struct {
+	deadlines []time.Duration // requested read deadlines, relative to the moment of the call
+}
+
+func (*fakeConn) Read(b []byte) (int, error)  { return 0, fmt.Errorf("closed") }
+func (*fakeConn) Write(b []byte) (int, error) { return len(b), nil }
+func (*fakeConn) Close() error                { return nil }
+func (*fakeConn) LocalAddr() net.Addr         { return &net.TCPAddr{IP: net.IPv4(127, 0, 0, 1), Port: 8080} }
+func (*fakeConn) RemoteAddr() net.Addr        { return &net.TCPAddr{IP: net.IPv4(127, 0, 0, 1), Port: 40000} }
+func (*fakeConn) SetDeadline(time.Time) error { return nil }
+func (c *fakeConn) SetReadDeadline(t time.Time) error {
+	c.deadlines = append(c.deadlines, time.Until(t))
+	return nil
+}
+func (*fakeConn) SetWriteDeadline(time.Time) error { return nil }
+
+type fakeRW struct {
+	h bfe_http.Header
+}
+
+func (w *fakeRW) Header() bfe_http.Header     { return w.h }
+func (w *fakeRW) Write(b []byte) (int, error) { return len(b), nil }
+func (w *fakeRW) WriteHeader(int)             {}
+
+func serve(body string) string {
+	parts := strings.Split(body, "|")
+	if len(parts) != 4 {
+		return "bad-op"
+	}
+	c0, ok := parseCfg(parts[0])
+	bl, ok1 := parseCfgs(parts[1])
+	fp, ok2 := parseCfgs(parts[2])
+	al, ok3 := parseCfgs(parts[3])
+	if !ok || !ok1 || !ok2 || !ok3 || !c0.good {
+		return "bad-op"
+	}
+	srv := server()
+	srv.CallBacks = bfe_module.NewBfeCallbacks()
+	reload := func(cs []srvCfg) {
+		for _, c := range cs {
+			h, v, r, cc := c.write()
+			srv.VerifC15Reload(h, v, r, cc)
+		}
+	}
+	h, v, r, cc := c0.write()
+	if err := srv.VerifC15Reload(h, v, r, cc); err != nil {
+		return "init-failed"
+	}
+	reached := false
+	srv.CallBacks.AddFilter(bfe_module.HandleBeforeLocation, func(req *bfe_basic.Request) (int, *bfe_http.Response) {
+		reload(bl)
+		return bfe_module.BfeHandlerGoOn, nil
+	})
+	srv.CallBacks.AddFilter(bfe_module.HandleFoundProduct, func(req *bfe_basic.Request) (int, *bfe_http.Response) {
+		reload(fp)
+		return bfe_module.BfeHandlerGoOn, nil
+	})
+	srv.CallBacks.AddFilter(bfe_module.HandleAfterLocation, func(req *bfe_basic.Request) (int, *bfe_http.Response) {
+		reached = true
+		reload(al)
+		return bfe_module.BfeHandlerClose, nil
+	})
+	conn := &fakeConn{}
+	hr := &bfe_http.Request{Method: "GET", Host: "a.com", URL: &url.URL{Path: "/"}, Header: make(bfe_http.Header),
+		Body: bfe_http.EofReader, RemoteAddr: conn.RemoteAddr().String()}
+	hr.State = &bfe_http.RequestState{Conn: conn, StartTime: time.Now()}
+	req := bfe_basic.NewRequest(hr, conn, bfe_basic.NewRequestStat(time.Now()), bfe_basic.NewSession(conn), srv.GetServerConf())
+	snap := snapVersion(req)
+	srv.ReverseProxy.ServeHTTP(&fakeRW{h: make(bfe_http.Header)}, req)
+	prod, cl, obj, errs := "-", "-", "-", "-"
+	if req.Route.Product != "" {
+		prod = ver(req.Route.Product, "prod")
+	}
+	if req.Route.ClusterName != "" {
+		cl = req.Route.ClusterName
+	}
+	if reached && len(conn.deadlines) > 0 {
+		// (v+1)*100 s requested; anything within 50 s of it is that version
+		obj = strconv.Itoa(int((conn.deadlines[0]+50*time.Second)/(100*time.Second)) - 1)
+	}
+	if req.ErrCode != nil {
+		errs = req.ErrCode.Error()
+	}
+	return fmt.Sprintf("snap=%s;prod=%s;cl=%s;obj=%s;err=%s;cur=%s", snap, prod, cl, obj, errs, snapVersion(newReq(srv)))
+}
+
+func genCfgs(r *vh.Rand, next *int, lo, hi int) string {
+	n := r.Range(lo, hi)
+	if n == 0 {
+		return "-"
+	}
+	var out []string
+	for i := 0; i < n; i++ {
+		*next++
+		nm, g := "n", "g"
+		if r.Chance(1, 2) {
+			nm = "s"
+		}
+		if r.Chance(1, 4) {
+			g = "b"
+		}
+		out = append(out, fmt.Sprintf("%d%s%s", *next, nm, g))
+	}
+	return strings.Join(out, ",")
+}
+
+func genServe(r *vh.Rand) string {
+	next := r.Range(1, 6)
+	c0 := fmt.Sprintf("%dn", next)
+	if r.Chance(1, 2) {
+		c0 = fmt.Sprintf("%ds", next)
+	}
+	bl := genCfgs(r, &next, 0, 2)
+	fp := genCfgs(r, &next, 0, 2)
+	al := genCfgs(r, &next, 0, 1)
+	return "serve " + c0 + "g|" + bl + "|" + fp + "|" + al
+}
+
 func exec(op string) string {
 	switch {
 	case strings.HasPrefix(op, "sched "):
 		return sched(op[6:])
+	case strings.HasPrefix(op, "serve "):
+		return serve(op[6:])
 	case strings.HasPrefix(op, "stress "):
 		n, err := strconv.Atoi(op[7:])
 		if err != nil || n < 1 || n > 200 {
@@ -252,6 +448,9 @@ func exec(op string) string {
 func gen(r *vh.Rand) string {
 	if r.Chance(1, 150) {
 		return fmt.Sprintf("stress %d", r.Range(5, 30))
+	}
+	if r.Chance(2, 5) {
+		return genServe(r)
 	}
 	nreq := r.Range(1, 4)
 	// per request the remaining script S (P|C)* F ; reloads are interleaved at random
